@@ -102,7 +102,7 @@ MONITORS = {
     "C03": [generic.mon_c03],
     "C04": [generic.mon_c04],
     "C06": [generic.mon_c06],
-    "C11": [generic.mon_c11, generic.mon_c11_stuck],
+    "C11": [generic.mon_c11, generic.mon_c11_stuck, generic.mon_c11_slept],
     "C18": [generic.mon_c18],
 }
 
